@@ -20,11 +20,11 @@ namespace std { template <> struct hash<HashKey> { size_t operator()(const HashK
 
 static std::string longStr(int i) { return fmt("key-number-%d-with-a-text-longer-than-any-small-string-buffer", i); }
 template <typename K> struct KeyOps;
-template <> struct KeyOps<int> { static int make(int i) { return 100 + i; } static int index(int k) { return k - 100; } static const char * name() { return "int"; } };
-template <> struct KeyOps<EK> { static EK make(int i) { return i == 0 ? EK::A : i == 1 ? EK::B : EK::C; } static int index(EK k) { return k == EK::A ? 0 : k == EK::B ? 1 : k == EK::C ? 2 : -1; } static const char * name() { return "enum class"; } };
-template <> struct KeyOps<std::string> { static std::string make(int i) { return longStr(i); } static int index(const std::string & k) { for(int i = 0; i < 3; ++i) if(k == longStr(i)) return i; return -1; } static const char * name() { return "std::string"; } };
-template <> struct KeyOps<OrdKey> { static OrdKey make(int i) { return OrdKey{longStr(i)}; } static int index(const OrdKey & k) { return KeyOps<std::string>::index(k.s); } static const char * name() { return "struct with operator<"; } };
-template <> struct KeyOps<HashKey> { static HashKey make(int i) { return HashKey{longStr(i)}; } static int index(const HashKey & k) { return KeyOps<std::string>::index(k.s); } static const char * name() { return "struct with std::hash and =="; } };
+template <> struct KeyOps<int> { typedef long Alt; static long alt(int i) { return 100L + i; } static int make(int i) { return 100 + i; } static int index(int k) { return k - 100; } static const char * name() { return "int"; } };
+template <> struct KeyOps<EK> { typedef EK Alt; static EK alt(int i) { return make(i); } static EK make(int i) { return i == 0 ? EK::A : i == 1 ? EK::B : EK::C; } static int index(EK k) { return k == EK::A ? 0 : k == EK::B ? 1 : k == EK::C ? 2 : -1; } static const char * name() { return "enum class"; } };
+template <> struct KeyOps<std::string> { typedef const char * Alt; static const char * alt(int i) { static const std::string t[3] = {longStr(0), longStr(1), longStr(2)}; return t[i].c_str(); } static std::string make(int i) { return longStr(i); } static int index(const std::string & k) { for(int i = 0; i < 3; ++i) if(k == longStr(i)) return i; return -1; } static const char * name() { return "std::string"; } };
+template <> struct KeyOps<OrdKey> { typedef OrdKey Alt; static OrdKey alt(int i) { return make(i); } static OrdKey make(int i) { return OrdKey{longStr(i)}; } static int index(const OrdKey & k) { return KeyOps<std::string>::index(k.s); } static const char * name() { return "struct with operator<"; } };
+template <> struct KeyOps<HashKey> { typedef HashKey Alt; static HashKey alt(int i) { return make(i); } static HashKey make(int i) { return HashKey{longStr(i)}; } static int index(const HashKey & k) { return KeyOps<std::string>::index(k.s); } static const char * name() { return "struct with std::hash and =="; } };
 
 // ------------------------------------------------------------------ observation
 struct Seen { int listener; int keyIndex; int payloadId; bool intact; };
@@ -92,8 +92,11 @@ struct PolGetEventRotRef : Pol<Mode, UserMap, Hashed> {
 	}
 };
 
-enum Cat { C_LVALUE, C_CONST, C_PRVALUE, C_MOVE, C_KEY_PRVALUE_PAYLOAD_LVALUE, C_KEY_LVALUE_PAYLOAD_MOVE, NCAT };
-static const char * catName(int c) { static const char * n[] = {"lvalues", "const lvalues", "prvalues", "std::move", "key prvalue + payload lvalue", "key lvalue + payload std::move"}; return n[c]; }
+// C_KEY_CONVERTIBLE_LVALUE: the event is given as a non-const lvalue of a type that merely CONVERTS to the key type (a long for
+// an int key, a const char* for a std::string key; the key type itself where there is no such type): the converted event is a
+// temporary inside the library
+enum Cat { C_LVALUE, C_CONST, C_PRVALUE, C_MOVE, C_KEY_PRVALUE_PAYLOAD_LVALUE, C_KEY_LVALUE_PAYLOAD_MOVE, C_KEY_CONVERTIBLE_LVALUE, NCAT };
+static const char * catName(int c) { static const char * n[] = {"lvalues", "const lvalues", "prvalues", "std::move", "key prvalue + payload lvalue", "key lvalue + payload std::move", "key as an lvalue of a convertible type + payload lvalue"}; return n[c]; }
 
 // ------------------------------------------------------------------ one cell
 // KP: how the prototype takes the key (K or const K&); PP: payload (Tracked, const Tracked&, Tracked&)
@@ -143,10 +146,10 @@ struct Cell {
 		int pid = nextPayload; while(pid % 3 != ki) ++pid; nextPayload = pid + 1;
 		Tracked lv(pid); const Tracked clv(pid);
 		std::vector<Seen> seen; g_seen = &seen;
-		withPayload(cat >= C_KEY_PRVALUE_PAYLOAD_LVALUE ? (cat == C_KEY_PRVALUE_PAYLOAD_LVALUE ? C_LVALUE : C_MOVE) : cat, lv, clv, pid, [&](auto && p) { callOne(std::forward<decltype(p)>(p)); });
+		withPayload(cat >= C_KEY_PRVALUE_PAYLOAD_LVALUE ? (cat != C_KEY_LVALUE_PAYLOAD_MOVE ? C_LVALUE : C_MOVE) : cat, lv, clv, pid, [&](auto && p) { callOne(std::forward<decltype(p)>(p)); });
 		g_seen = nullptr;
 		this->check(seen, ki, pid, -2, "dispatch(payload) with a getEvent policy", cat);
-		if((cat == C_LVALUE || cat == C_KEY_PRVALUE_PAYLOAD_LVALUE || payloadIsMutableRef) && !lv.intact()) ctx.fail("caller-lvalue-modified", "the caller's payload lvalue was modified or moved from by dispatch");
+		if((cat == C_LVALUE || cat == C_KEY_PRVALUE_PAYLOAD_LVALUE || cat == C_KEY_CONVERTIBLE_LVALUE || payloadIsMutableRef) && !lv.intact()) ctx.fail("caller-lvalue-modified", "the caller's payload lvalue was modified or moved from by dispatch");
 	}
 	template <typename PV> void callOne(PV && p) { send(std::integral_constant<bool, IsQueue>(), std::forward<PV>(p)); }
 	template <typename F> void withPayload(int pc, Tracked & lv, const Tracked & clv, int pid, F f) { withPayloadImpl(pc, lv, clv, pid, f, std::integral_constant<bool, payloadIsMutableRef>()); }
@@ -162,6 +165,7 @@ struct Cell {
 		(void)shownKey; (void)k2Lv;
 
 			if(cat == C_LVALUE || cat == C_KEY_LVALUE_PAYLOAD_MOVE) withPayload(pc, lv, clv, pid, [&](auto && p) { callInclude(evLv, std::forward<decltype(p)>(p)); });
+			else if(cat == C_KEY_CONVERTIBLE_LVALUE) { typename KeyOps<K>::Alt a = KeyOps<K>::alt(ki); withPayload(pc, lv, clv, pid, [&](auto && p) { callInclude(a, std::forward<decltype(p)>(p)); }); }
 			else if(cat == C_CONST) withPayload(pc, lv, clv, pid, [&](auto && p) { callInclude(evClv, std::forward<decltype(p)>(p)); });
 			else if(cat == C_PRVALUE || cat == C_KEY_PRVALUE_PAYLOAD_LVALUE) withPayload(pc, lv, clv, pid, [&](auto && p) { callInclude(KeyOps<K>::make(ki), std::forward<decltype(p)>(p)); });
 			else withPayload(pc, lv, clv, pid, [&](auto && p) { callInclude(std::move(evLv), std::forward<decltype(p)>(p)); });
@@ -169,6 +173,7 @@ struct Cell {
 	void callKeyForms(int cat, int pc, int ki, int shownKey, int pid, K & evLv, const K & evClv, K & k2Lv, Tracked & lv, const Tracked & clv, std::true_type) {
 
 			if(cat == C_LVALUE || cat == C_KEY_LVALUE_PAYLOAD_MOVE) withPayload(pc, lv, clv, pid, [&](auto && p) { callExclude(evLv, k2Lv, std::forward<decltype(p)>(p)); });
+			else if(cat == C_KEY_CONVERTIBLE_LVALUE) { typename KeyOps<K>::Alt a = KeyOps<K>::alt(ki); typename KeyOps<K>::Alt a2 = KeyOps<K>::alt(shownKey); withPayload(pc, lv, clv, pid, [&](auto && p) { callExclude(a, a2, std::forward<decltype(p)>(p)); }); }
 			else if(cat == C_CONST) withPayload(pc, lv, clv, pid, [&](auto && p) { callExclude(evClv, k2Lv, std::forward<decltype(p)>(p)); });
 			else if(cat == C_PRVALUE || cat == C_KEY_PRVALUE_PAYLOAD_LVALUE) withPayload(pc, lv, clv, pid, [&](auto && p) { callExclude(KeyOps<K>::make(ki), KeyOps<K>::make(shownKey), std::forward<decltype(p)>(p)); });
 			else withPayload(pc, lv, clv, pid, [&](auto && p) { callExclude(std::move(evLv), std::move(k2Lv), std::forward<decltype(p)>(p)); });
@@ -185,7 +190,7 @@ struct Cell {
 		K k2Lv = KeyOps<K>::make(shownKey);
 		Tracked lv(pid); const Tracked clv(pid);
 		std::vector<Seen> seen; g_seen = &seen;
-		int pc = payloadIsMutableRef ? C_LVALUE : cat;
+		int pc = (payloadIsMutableRef || cat == C_KEY_CONVERTIBLE_LVALUE) ? C_LVALUE : cat;
 		callKeyForms(cat, pc, raw, shownKey, pid, evLv, evClv, k2Lv, lv, clv, std::integral_constant<bool, Excl>());
 		g_seen = nullptr;
 		this->check(seen, ki, pid, shownKey, Excl ? "dispatch(event, key, payload)" : "dispatch(key, payload)", cat);
